@@ -52,6 +52,17 @@ func TestVerifC02(t *testing.T) {
 			o.line("dec-layout "+bc.c.Name+" "+bc.v.String(), r)
 		}
 	}
+	for _, v := range s.topOfRange(rng) {
+		c := s.params["Custom"]
+		p := s.newGo(c)
+		s.toGo(c, v, p.Elem())
+		b, res := vmarshal(p)
+		obs := res
+		if res == "ok" {
+			obs = "ok x" + vhex(b)
+		}
+		o.line("layout "+c.Name+" "+v.String(), obs)
+	}
 	for _, c := range s.all {
 		for i := 0; i < per; i++ {
 			g := &vgen{s: s, r: rng, big: vthorough() && i%4 == 0, budget: 60}
